@@ -1,6 +1,7 @@
 SPECIFICATION Spec
 CONSTANTS
   Nows = {3, 4, 7, 8, 12, 13, 16, 17}
+  Pads = {0, 9}
   Kinds = {"ssoRoot", "ssoAssert", "logoutReq", "logoutResp"}
 INVARIANTS InvC02 InvC04 InvC10 Emit
 PROPERTIES Frozen Terminates
